@@ -53,9 +53,9 @@ CHECKS = {
         technique=TECH + " (loop contracts on the label map of remove_labels and on remove_unused_labels); bounded native contract check (stand-in) for the regular-expression phase and compile_code"),
     "C06": dict(
         category="exploration",
-        text="Shadow call stack on the reference machine: every executed return goes to the line after the call being served, the stack pointer at top-level yields is constant, effects agree with the source, for generated call graphs under both conventions, inlining and tail calls.",
-        design_ref="6.C06", note="Bounded only; trusted: spec/ic10_machine.py shadow call stack.",
-        technique="bounded native contract check on a reference machine with shadow call stack (stand-in)"),
+        text="The argument / result transport between handle_call, compile_function and handle_return is proved from the real address expressions and loop shapes for all argument counts (caller and callee slots agree, are distinct, miss the result cell, stay inside the stack; the callee's pop order is the reverse of the caller's push order; each access sits in the branch of its convention). Everything else is a bounded stand-in: shadow call stack on the reference machine - every executed return goes to the line after the call being served, the stack pointer at top-level yields is constant, effects agree with the source, for generated call graphs under both conventions, inlining and tail calls; add_ra_instructions on callee skeletons.",
+        design_ref="6.C06, 12.11", note="Level stays 'exploration': return addresses (ra save / restore) and the call protocol as a whole are bounded only; the proved obligations are listed separately in the evidence. Trusted: spec/ic10_machine.py shadow call stack, LIFO push/pop.",
+        technique=TECH + " (two-site lemma on the argument slots / pop order); bounded native contract check on a reference machine with shadow call stack (stand-in)"),
     "C07": dict(
         category="exploration",
         text="Region map on the reference machine: function regions are entered only by jal / tail-call jumps. The main-end fall-through is a recorded known finding; the remaining obligations keep reporting.",
